@@ -28,6 +28,7 @@ DROPS = {
     "R8": "`let P = X.ok_or_else(|| E)?;` -> `let P = match X { ::std::option::Option::Some(v__) => v__, ::std::option::Option::None => return ::std::result::Result::Err(E) };` (the definition of Option::ok_or_else followed by `?` in a function whose error type is the closure's result type)",
     "R9": "(opt-in, replaces R2) `format!(\"p0{}p1{name}p2\", a)` with only plain `{}` / `{ident}` holes -> `fmt_<hash>(&(a), &(name))`, a generated external_body fn whose assumed contract is `r@ == \"p0\"@ + a.disp() + \"p1\"@ + name.disp() + \"p2\"@` (std's documented meaning of a format string; `disp` is the Display rendering: the characters of a String / &str, the uninterpreted decimal rendering of an integer); an argument that contains a closure is replaced by an opaque String under the R4 conditions; any format spec (`{:?}`, width, positional index, named argument) is refused",
     "R10": "(opt-in) a chain `A + B + C` in a function where `+` is only used on Strings -> `str_add(str_add(A, B), C)`; `str_add(a: String, b: &str)` is specified as concatenation of the character sequences (std: `impl Add<&str> for String` appends)",
+    "R11": "(opt-in) tail expression `X.map_err(|v| B)` -> `match X { ::std::result::Result::Ok(o__) => ::std::result::Result::Ok(o__), ::std::result::Result::Err(v) => ::std::result::Result::Err(B) }` (the definition of Result::map_err; a closure without annotations has no postcondition in Verus)",
     "R4": "expressions replaced by an opaque value on request of @@opaque-arg (only if they contain no return / ? / break / continue)",
 }
 
@@ -380,6 +381,39 @@ def rewrite_ok_or_else(text, notes, where):
         notes.append({"rule": "R8", "where": where, "receiver": norm(code_toks(tokenize(recv)))})
         text = text[:ct[j+1].start] + new + text[ct[close+1].end:]
 
+def rewrite_map_err(text, notes, where):
+    """R11 (tail-expression form only: the receiver starts right after the previous `;`)"""
+    while True:
+        ct = code_toks(tokenize(text))
+        hit = None
+        for i, t in enumerate(ct):
+            if t.kind == "ident" and t.text == "map_err" and ct[i-1].text == "." and ct[i+1].text == "(" and ct[i+2].text == "|" and ct[i+3].kind == "ident" and ct[i+4].text == "|":
+                hit = i; break
+        if hit is None:
+            return text
+        close = match_close(ct, hit + 1)
+        if ct[close+1].text != "}":
+            raise Undecided(f"{where}: map_err is not the tail expression of a block: rewrite R11 refused")
+        j = hit - 2; depth = 0
+        while j >= 0:
+            tt = ct[j].text
+            if ct[j].kind == "punct" and tt in ")]}": depth += 1
+            elif ct[j].kind == "punct" and tt in "([{":
+                if depth == 0: break
+                depth -= 1
+            elif depth == 0 and tt == ";":
+                break
+            j -= 1
+        recv = text[ct[j+1].start:ct[hit-2].end]
+        var = ct[hit+3].text
+        body = text[ct[hit+5].start:ct[close-1].end]
+        for t in ct[hit+5:close]:
+            if (t.kind == "ident" and t.text in ("return", "break", "continue")) or (t.kind == "punct" and t.text == "?"):
+                raise Undecided(f"{where}: control flow inside the map_err closure: rewrite R11 refused")
+        new = ("match " + recv + " { ::std::result::Result::Ok(o__) => ::std::result::Result::Ok(o__), ::std::result::Result::Err(" + var + ") => ::std::result::Result::Err(" + body + ") }")
+        notes.append({"rule": "R11", "where": where, "receiver": norm(code_toks(tokenize(recv)))})
+        text = text[:ct[j+1].start] + new + text[ct[close].end:]
+
 _for_counter = [0]
 def rewrite_for(text, notes, where):
     """R1 (repeated until no `for` loop is left)"""
@@ -491,6 +525,8 @@ def annotate_fn(text, fn_dirs, where, notes):
         text = rewrite_strmatch(text, notes, where)
     if any(d["name"] == "rewrite" and d["arg"] == "ok_or_else" for d in fn_dirs):
         text = rewrite_ok_or_else(text, notes, where)
+    if any(d["name"] == "rewrite" and d["arg"] == "map_err" for d in fn_dirs):
+        text = rewrite_map_err(text, notes, where)
     for d in fn_dirs:
         if d["name"] == "opaque-arg":
             text = opaque_arg(text, d, where, notes)
